@@ -308,4 +308,112 @@ def linked_text(defs):
     out += ren(defs['gen_ctrl_read'], [('gen_ctrl_read', 'genL_ctrl_read'), ('avps_read', 'genL_avps_read')])
     out += ren(defs['gen_msg_read'], [('gen_msg_read', 'genL_msg_read'), ('flags_read', 'gen_flags_read'), ('data_read', 'genL_data_read'),
                                       ('ctrl_read', 'genL_ctrl_read')])
-    return out + LINKED_TAIL
+    out = out.replace('From RL Require Import Spec.SpecDecode Proofs.RefineDecode Proofs.Totality.',
+                      'From RL Require Import Spec.SpecDecode Spec.SpecEncode Proofs.RefineDecode Proofs.Totality Proofs.RoundTrip '
+                      'Proofs.DataRoundTrip Proofs.EncodeFacts Proofs.RefineEncode.')
+    out += LINKED_TAIL
+    kinds = sorted(MODEL_DEC) + ['Hidden', 'SequencingRequired']
+    enc_need = ['gen_enc_avp', 'gen_enc_ctrl', 'gen_enc_data'] + ['gen_wr_%s' % k for k in kinds] + ['gen_len_%s' % k for k in kinds]
+    if any(n not in defs for n in enc_need):
+        return out
+    for k in kinds:
+        out += defs['gen_wr_%s' % k] + defs['gen_len_%s' % k]
+
+    def disp(fn):
+        k32 = config.K32BM[:2] + ['CallSerialNumber', 'MinimumBps', 'MaximumBps'] + config.K32BM[2:] + ['TxConnectSpeed', 'RxConnectSpeed']
+        fam = lambda ctor, ks: '| %s k v => match k with %s end' % (ctor, ' '.join('| %s => gen_%s_%s v ARGS' % (x, fn, x) for x in ks))
+        arms = ['| AMessageType t => gen_%s_MessageType t ARGS' % fn, '| AResultCode c e => gen_%s_ResultCode c e ARGS' % fn,
+                '| AProtocolVersion v r => gen_%s_ProtocolVersion v r ARGS' % fn, fam('A32', k32),
+                '| ATieBreaker v => gen_%s_TieBreaker v ARGS' % fn, fam('A16', config.K16), fam('ABytes', config.KBYTES),
+                fam('AStr', config.KSTR), fam('AFix', config.KFIX),
+                '| AQ931CauseCode cc cm adv => gen_%s_Q931CauseCode cc cm adv ARGS' % fn,
+                '| AProxyAuthenType t => gen_%s_ProxyAuthenType t ARGS' % fn, '| AProxyAuthenId v => gen_%s_ProxyAuthenId v ARGS' % fn,
+                '| ACallErrors a b c d e f => gen_%s_CallErrors a b c d e f ARGS' % fn, '| AAccm s r => gen_%s_Accm s r ARGS' % fn,
+                '| ASequencingRequired => gen_%s_SequencingRequired ARGS' % fn, '| AHidden t v => gen_%s_Hidden t v ARGS' % fn]
+        return '\n  '.join(arms)
+    # enum_dispatch: which variant's write / get_length a value of the Model's avp type goes to
+    out += 'Definition genL_wr_payload (a : avp) (w : writer) : writer :=\n  match a with\n  %s\n  end.\n' % disp('wr').replace('ARGS', 'w')
+    out += 'Definition genL_get_length (a : avp) : N :=\n  match a with\n  %s\n  end.\n' % disp('len').replace(' ARGS', '')
+    out += LINKED_WR
+    out += ren(defs['gen_enc_avp'], [('gen_enc_avp', 'genL_enc_avp'), ('wr_payload', 'genL_wr_payload')])
+    out += ('Fixpoint genL_enc_avps (l : list avp) (w : writer) : outcome writer :=\n'
+            '  match l with [] => Val w | a :: t => obind (genL_enc_avp a w) (genL_enc_avps t) end.\n')
+    out += ren(defs['gen_enc_ctrl'], [('gen_enc_ctrl', 'genL_enc_ctrl'), ('m_enc_avps_w', 'genL_enc_avps')])
+    out += defs['gen_enc_data']
+    return out + LINKED_ENC_TAIL
+
+
+LINKED_WR = r'''
+Ltac destruct_scrut :=
+  repeat match goal with |- context [match ?x with _ => _ end] => is_var x; destruct x end.
+Lemma L_wr : forall a w, genL_wr_payload a w = wr_payload a w.
+Proof.
+  intros a w. destruct a as [t|c e|v r|k v|v|k v|k v|k v|k v|cc cm adv|t|v|a b c d e f|s r| |t v];
+    try destruct k; cbv -[w_u8 w_u16 w_u32 w_u64 w_bytes len]; destruct_scrut; reflexivity.
+Qed.
+Lemma L_len : forall a, genL_get_length a = m_get_length a.
+Proof.
+  intros a. destruct a as [t|c e|v r|k v|v|k v|k v|k v|k v|cc cm adv|t|v|a b c d e f|s r| |t v];
+    try destruct k; cbv -[len N.add]; destruct_scrut; try reflexivity.
+  all: match goal with |- ?g => idtac g end.
+Qed.
+'''
+
+LINKED_ENC_TAIL = r'''(* Message::write dispatches on the variant *)
+Definition genL_encode (v : message) (p : list N) : outcome (list N) :=
+  omap w_data (match v with Control m => genL_enc_ctrl m (writer_of p) | Data d => gen_enc_data d (writer_of p) end).
+
+Lemma L_enc_avp : forall a w, genL_enc_avp a w = m_enc_avp_w a w.
+Proof.
+  intros a w. unfold genL_enc_avp, m_enc_avp_w. rewrite !L_wr. cbv zeta. set (w3 := wr_payload a (w_u16 0 (w_bytes [0; 0] w))).
+  guard2 (w_len w <=? w_len w3) (w_len w3 <? w_len w). guard2 (w_len w3 - w_len w <=? 1023) (1023 <? w_len w3 - w_len w).
+  rewrite land3_mod256, obind_val. destruct (is_hidden a); reflexivity.
+Qed.
+Lemma L_enc_avps : forall l w, genL_enc_avps l w = m_enc_avps_w l w.
+Proof.
+  induction l as [|a t IH]; intros w; cbn [genL_enc_avps m_enc_avps_w]; [reflexivity|].
+  rewrite L_enc_avp. destruct (m_enc_avp_w a w); cbn [obind]; [apply IH|reflexivity..].
+Qed.
+Lemma L_enc_ctrl : forall m w, genL_enc_ctrl m w = m_enc_ctrl_w m w.
+Proof.
+  intros m w. unfold genL_enc_ctrl, m_enc_ctrl_w. rewrite !L_enc_avps.
+  change (flags_new true true true false false 2) with (Val (A := N) 4896).
+  cbv iota zeta. cbn [obind]. change (2 <=? 15) with true. cbv iota.
+  match goal with |- obind ?x _ = obind ?y _ => change x with y; destruct y as [w4| | |]; cbn [obind]; try reflexivity end.
+  guard2 (w_len w <=? w_len w4) (w_len w4 <? w_len w). guard2 (w_len w4 - w_len w <=? 65535) (65535 <? w_len w4 - w_len w).
+  rewrite be16_mod, obind_val. reflexivity.
+Qed.
+Lemma L_enc_data : forall d w, gen_enc_data d w = m_enc_data_w d w.
+Proof.
+  intros d w. unfold gen_enc_data, m_enc_data_w, flags_new, set_bit. destruct d as [p ln t s nsnr off data].
+  cbn [d_prio d_length d_tunnel d_session d_nsnr d_offset d_data]. destruct ln, nsnr as [[? ?]|], off, p; reflexivity.
+Qed.
+
+(** the encoder regenerated from the source, with every callee regenerated too, IS the Model's encoder *)
+Theorem regenerated_encoder_is_model : forall v p, genL_encode v p = m_encode v p.
+Proof.
+  intros v p. unfold genL_encode, m_encode, m_encode_w. destruct v as [m|d]; [rewrite L_enc_ctrl|rewrite L_enc_data]; reflexivity.
+Qed.
+
+(** hence the round-trip and layout theorems hold of the regenerated encoder and decoder together *)
+Theorem G_C03_ctrl_roundtrip : forall m, wf_ctrl m = true ->
+  exists b, genL_encode (Control m) [] = Val b /\ b = s_enc_ctrl m /\
+            run (genL_msg_read strict_opts) b = Val (Ok (Control (with_length m (len b))), []).
+Proof.
+  intros m H. destruct (ctrl_roundtrip m H) as [b [E [S D]]]. exists b.
+  rewrite regenerated_encoder_is_model, regenerated_decoder_is_model. auto.
+Qed.
+Theorem G_C04_data_roundtrip : forall o d, wf_data d = true ->
+  exists b, genL_encode (Data d) [] = Val b /\ b = s_enc_data d /\
+            run (genL_msg_read o) b = Val (Ok (Data (decoded_data d)), []).
+Proof.
+  intros o d H. destruct (data_roundtrip o d H) as [b [E [S D]]]. exists b.
+  rewrite regenerated_encoder_is_model, regenerated_decoder_is_model. auto.
+Qed.
+Theorem G_C06_encode_refines_spec : forall v p,
+  genL_encode v p = if encodable v then Val (p ++ s_encode v) else Panic PkAssert.
+Proof. intros. rewrite regenerated_encoder_is_model. apply encode_octets. Qed.
+Print Assumptions G_C03_ctrl_roundtrip.
+Print Assumptions G_C04_data_roundtrip.
+Print Assumptions G_C06_encode_refines_spec.
+'''
